@@ -7,3 +7,4 @@ Definition k_flow_pack_asn1_boolean : pfun :=
     ] [];
     SReturn (PCall "_pack_asn1" [(PAttr (PName "tag") "tag_class"); (PAttr (PName "tag") "is_constructed"); (PAttr (PName "tag") "tag_number"); (PIfExp (PName "value") (PBytes [255]) (PBytes [0]))])
   ] |}.
+Definition k_flow_pack_asn1_boolean_defaults : list (string * pexp) := [("tag", PNone)].
